@@ -12,7 +12,7 @@ import (
 
 // C08 — decoding is independent of how the transport segments the byte stream.
 func C08(c *vk.Ctx) {
-	c.Rule("server streams = all scripts of length <= n (quick 2, thorough 3) over the C03 packet alphabet, rendered at revisions 54460 and 54405, plain and LZ4, typed and Auto binding; segmentations of each stream: one byte per read, every two-piece split (all offsets), the same deliveries with the server closing right after its last byte and the transport returning the end of the stream together with the last bytes (n > 0 with io.EOF, as crypto/tls does), every two-piece split with 2 s of idle time before each piece (each wait inside the read timeout, the packet as a whole not), an idle gap longer than the read timeout before every packet (clock steps, read deadline fires and is retried), also under a context whose deadline is an hour away, every two-piece split and bytewise delivery on a client with a past (connected longer ago than the handshake time-out; an earlier query under a 10 s context whose deadline has passed since), for streams <= 16 bytes all 2^(n-1) segmentations, and (thorough) every three-piece split of streams <= 96 bytes. Each case is one execution of the real Connect + Do; oracle: callback trace and return value equal the reference interpreter's, i.e. the unsegmented outcome; and (all groups but the gap, idle and end-of-stream ones) a Ping issued on the same client afterwards, answered by the peer once it has seen it, ends the same way as after the same stream delivered in one piece (what Do left unread is the same bytes wherever they sit: transport or read-ahead buffer). distinct_nontrivial = (stream, segmentation) cases.")
+	c.Rule("server streams = all scripts of length <= n (quick 2, thorough 3) over the C03 packet alphabet, rendered at revisions 54460 and 54405, plain and LZ4, typed and Auto binding; segmentations of each stream: one byte per read, every two-piece split (all offsets), the same deliveries with the server closing right after its last byte and the transport returning the end of the stream together with the last bytes (n > 0 with io.EOF, as crypto/tls does), every two-piece split with 2 s of idle time before each piece (each wait inside the read timeout, the packet as a whole not), an idle gap longer than the read timeout before every packet (clock steps, read deadline fires and is retried), also under a context whose deadline is an hour away, every two-piece split and bytewise delivery on a client with a past (connected longer ago than the handshake time-out; an earlier query under a 10 s context whose deadline has passed since), for streams <= 16 bytes all 2^(n-1) segmentations, and (thorough) every three-piece split of streams <= 96 bytes. Each case is one execution of the real Connect + Do; oracle: callback trace and return value equal the reference interpreter's, i.e. the unsegmented outcome; and (all groups but the gap, idle and end-of-stream ones) a Ping issued on the same client afterwards, answered by the peer once it has seen it, ends the same way as after the same stream delivered in one piece, and succeeds when the stream ends with its terminating packet (what Do left unread is the same bytes wherever they sit: transport or read-ahead buffer). distinct_nontrivial = (stream, segmentation) cases.")
 	quick := c.Quick()
 	maxLen := 2
 	if !quick {
@@ -61,6 +61,19 @@ func C08(c *vk.Ctx) {
 				}
 				followRef[k.id()] = ref
 				c.Eval("next-request-reference", 1)
+				// absolute part: when the terminating packet (first Exception / EndOfStream)
+				// is the last one of the stream, nothing is left unread and the client stays
+				// open, so the Ping must simply succeed
+				term := len(k.script) - 1
+				for i, p := range k.script {
+					if p.kind == "exc" || p.kind == "eos" {
+						term = i
+						break
+					}
+				}
+				if ref != "?" && term == len(k.script)-1 && ref != "ping=nil closed-after=false" {
+					c.Violation("C08/next-request-fails/"+group, k.id()+"/seg=whole", fmt.Sprintf("the stream ends with its terminating packet, so nothing is left unread; the Ping issued on the same client after Do ended with %q", ref), nil)
+				}
 			}
 			if ref != "?" && x.Out.Aux != ref {
 				key, detail = "C08/next-request-differs", fmt.Sprintf("the Ping issued on the same client after Do ended with %q; with the same server stream delivered in one piece it ends with %q", x.Out.Aux, ref)
